@@ -694,6 +694,19 @@ INTERNAL_DECL(struct kdump_xlat *, xlat_clone,
 	      (const struct kdump_xlat *orig));
 INTERNAL_DECL(void, xlat_free, (struct kdump_xlat *xlat));
 
+#ifdef LIBKDUMPFILE_VERIF
+/* Verification hook (add-only; expands to nothing without the guard):
+ * the reference counter of the shared translation object is about to
+ * change. kind: 0 = xlat_incref, 1 = xlat_decref. */
+extern void verif_xlat_event(int kind, const void *xlat)
+	__attribute__((weak));
+#define VERIF_XLAT_EVENT(kind, xlat)			\
+	if (verif_xlat_event)				\
+		verif_xlat_event((kind), (xlat));
+#else
+#define VERIF_XLAT_EVENT(kind, xlat)
+#endif
+
 /** Increment address translation reference counter.
  * @param xlat  Address translation.
  * @returns     New reference count.
@@ -701,6 +714,7 @@ INTERNAL_DECL(void, xlat_free, (struct kdump_xlat *xlat));
 static inline unsigned long
 xlat_incref(struct kdump_xlat *xlat)
 {
+	VERIF_XLAT_EVENT(0, xlat)
 	return ++xlat->refcnt;
 }
 
@@ -714,6 +728,7 @@ xlat_incref(struct kdump_xlat *xlat)
 static inline unsigned long
 xlat_decref(struct kdump_xlat *xlat)
 {
+	VERIF_XLAT_EVENT(1, xlat)
 	unsigned long refcnt = --xlat->refcnt;
 	if (refcnt)
 		return refcnt;
